@@ -90,6 +90,11 @@ def draw_sched(rng, variant, small=False):
         # (OMP_THREAD_LIMIT below OMP_NUM_THREADS, OMP_DYNAMIC=true): legal for any OpenMP
         # runtime, and the result must still be the one-thread result
         s["team_limit"] = rng.randint(2, s["nthreads"] - 1)
+    if rng.chance(0.15):
+        # the thread-count setting changes between two library calls on the same objects
+        # (omp_set_num_threads / threadpoolctl / pyscf.lib.num_threads in a long-lived
+        # interpreter): objects built under one team size are used under another
+        s["team_phase"] = [rng.choice([1, 2, 3, 4, 5, 8, 16, 17, 32]) for _ in range(rng.randint(1, 3))]
     if variant == "simtrace":
         s["preempt_mean"] = rng.choice([3, 10, 30, 100, 1000])
         # windows are keyed by region function: dense pre-emption of a few functions per run
@@ -242,10 +247,21 @@ def run_workload(wl, wp, sched, record=False, replay=None):
     )
     exc = None
     out = None
+    tp = list(sched.get("team_phase") or [])
+    if tp:
+        state = {"i": 0}
+
+        def hook():
+            _sim.lib.omp_set_num_threads(int(tp[state["i"] % len(tp)]))
+            state["i"] += 1
+
+        W.PHASE_HOOK = hook
     try:
         out = fn(wp)
     except Exception as e:  # an exception under a schedule but not in the reference is a difference
         exc = "%s: %s" % (type(e).__name__, str(e)[:200])
+    finally:
+        W.PHASE_HOOK = None
     tr = _sim.trace() if record else None
     st = _sim.end()
     return out, st, exc, tr
@@ -428,6 +444,8 @@ def _run_case(spec):
             stats["runs_with_chunk_shuffle"] += 1
         if sched.get("team_limit"):
             stats["runs_with_team_below_max_threads"] += 1
+        if sched.get("team_phase"):
+            stats["runs_with_thread_count_changed_between_calls"] += 1
         dg.add("sched", "%x" % st["trace_hash"])
         multi += st["regions_multi"]
         rp = {"property": PROP, "engine": "simgomp", "case": {"workload": wl, "wparams": wp, "scheds": [sched], "group": spec["group"]}}
@@ -532,6 +550,7 @@ def minimise(v):
     tried = 0
     for field, cands in (
         ("team_limit", [0]),
+        ("team_phase", [0]),
         ("nthreads", [2, 3, 4]),
         ("chunk_shuffle", [0]),
         ("preempt_mean", [0, 10000, 1000, 100]),
@@ -657,6 +676,7 @@ def coverage(done, tier):
             "runs_with_access_preemption": int(tot["runs_with_access_preemption"]),
             "runs_with_chunk_shuffle": int(tot["runs_with_chunk_shuffle"]),
             "runs_with_team_below_max_threads": int(tot["runs_with_team_below_max_threads"]),
+            "runs_with_thread_count_changed_between_calls": int(tot["runs_with_thread_count_changed_between_calls"]),
             "earlier_calls_with_other_team_and_size_in_same_process": int(tot["earlier_calls_in_process"]),
         },
         "team_size_histogram": teams,
